@@ -70,6 +70,9 @@ TBlock ==
   /\ Block({TxName(R.conf[k]) : k \in 1..Len(R.conf)}
            \cup {"noHtlcD" : k \in {j \in 1..Len(R.conf) : NoHtlc(R.conf[j])}})
 
+\* R.n empty blocks in a row, the last one at height R.h, nothing recorded in between
+TBlocks == IsEvent("blocks") /\ R.h = h + R.n /\ Blocks(R.n)
+
 \* B stopped and restarted from its persisted state
 TRestart == IsEvent("restart") /\ R.h = h /\ R.node = 1 /\ Restart
 
@@ -85,7 +88,7 @@ TSkip == IsEvent("skip") /\ UNCHANGED vars
 TCo == IsEvent("co") /\ R.h = h /\ UNCHANGED vars
 
 TraceNext == TCase \/ TOffer \/ TShow \/ TForward \/ TClaim \/ TResolve \/ TBcast \/ TBlock \/ TClosed
-             \/ TEnd \/ TSkip \/ TRestart \/ TCo
+             \/ TEnd \/ TSkip \/ TRestart \/ TCo \/ TBlocks
 
 TraceSpec == TraceInit /\ [][TraceNext]_tvars
 
